@@ -147,6 +147,50 @@ let run_file (path : string) =
   close_in ic
 
 
+
+(* ---------- the Spec as an oracle: same lines, computed from positions; `ca` is not part of it ---------- *)
+let rec nat_mod a b = if b = 0 then 0 else a mod b
+let sobs (a : pipe) : string =
+  if a.sfreed then "ix=-,-,- | pub=-,-,- | alive=--- | freed=1"
+  else begin
+    let len = int_of_nat a.slen in
+    let any = a.shere.tP || a.shere.tW || a.shere.tC in
+    let f h p = if h then string_of_int (nat_mod (int_of_nat p) len) else "-" in
+    let ixs = Printf.sprintf "%s,%s,%s" (f a.shere.tP a.lpos.tP) (f a.shere.tW a.lpos.tW) (f a.shere.tC a.lpos.tC) in
+    let pubs = if any then Printf.sprintf "%d,%d,%d" (nat_mod (int_of_nat a.ppos.tP) len) (nat_mod (int_of_nat a.ppos.tW) len) (nat_mod (int_of_nat a.ppos.tC) len) else "-,-,-" in
+    let al = if any then b2s a.sflag.tP ^ b2s a.sflag.tW ^ b2s a.sflag.tC else "---" in
+    Printf.sprintf "ix=%s | pub=%s | alive=%s | freed=0" ixs pubs al
+  end
+
+(* prints, per step: "<ok?> <result> | <obs> | ev=..." ; ok? is '+' while the history respects the contract, '!' after *)
+let spec_file (path : string) =
+  let ic = open_in path in
+  let cur : pipe option ref = ref None in
+  let okf = ref true in
+  (try
+     while true do
+       let l = String.trim (input_line ic) in
+       if l = "" then ()
+       else if l.[0] = '#' then print_endline l
+       else if String.length l > 3 && String.sub l 0 3 = "cfg" then begin
+         okf := true;
+         match a_init (parse_cfg l) with
+         | None -> cur := None; print_endline "+ init panic"
+         | Some a -> cur := Some a; print_endline ("+ init ok | " ^ sobs a ^ " | ev=")
+       end else
+         match !cur with
+         | None -> print_endline "+ skip"
+         | Some a ->
+           let o = parse_op l in
+           if not (ok_op a o) then okf := false;
+           let (a', (r, evs)) = sstep a o in
+           let es = List.sort compare (List.filter_map str_lev evs) in
+           Printf.printf "%s %s | %s | ev=%s\n" (if !okf then "+" else "!") (str_out r) (sobs a') (String.concat "," es);
+           cur := Some a'
+     done
+   with End_of_file -> ());
+  close_in ic
+
 (* ------------------------------------------------------------------ generators ------------- *)
 let rng = ref 1
 let seed_rng s = rng := (s * 2654435761 + 12345) land 0xFFFFFFFFFFFF
@@ -265,8 +309,10 @@ let lens = [1; 2; 2; 3; 3; 3; 4; 4; 5; 5; 7; 8; 13; 16; 31; 64]
 
 let gen_cfg_line (g : genst) ~owned_ok : string * config =
   let owned = owned_ok && chance 35 in
-  let len = if owned then pick [1; 2; 3; 3; 4; 5; 8] else pick lens in
   let kind = pick ["conc"; "local"] and store = pick ["heap"; "stack"] and st = pick [2; 3; 3] in
+  let len =
+    if owned then (if store = "stack" then pick [1; 2; 3; 3; 4; 5] else pick [1; 2; 3; 3; 4; 5; 8])
+    else if store = "stack" then pick [1; 2; 2; 3; 3; 3; 4; 4; 5; 5; 7; 8; 13; 16] else pick lens in
   let ctor, init =
     if owned then
       (match rnd 3 with
@@ -404,6 +450,7 @@ let gen_bfs maxlen limit =
 let () =
   match Array.to_list Sys.argv with
   | _ :: "seq" :: files -> List.iter run_file files
+  | _ :: "spec" :: files -> List.iter spec_file files
   | [_; "rand"; seed; count; lo; hi] -> gen_rand (int_of_string seed) (int_of_string count) (int_of_string lo) (int_of_string hi)
   | [_; "bfs"; maxlen; limit] -> gen_bfs (int_of_string maxlen) (int_of_string limit)
   | _ -> prerr_endline "usage: model seq <history-file>... | rand <seed> <count> <min> <max> | bfs <maxlen> <limit>"; exit 2
